@@ -1,5 +1,5 @@
 """C23 — interactions follow the register, cutoff, custom matrix and SLM schedule (provenance clauses)."""
-from ..rules import pure, adapter, dark, step
+from ..rules import pure, adapter, dark, step, drivers
 
 META = {
     "title": "Interactions follow the register, cutoff, custom matrix and SLM schedule",
@@ -31,3 +31,4 @@ def check(ctx):
     ctx.floor("INTERACT", 8)
     pure.check(ctx, [], ["emu_mps.optimatrix.optimiser", "emu_mps.optimatrix.permutations"])
     dark.sv_completeness(ctx)
+    drivers.custom_interaction_matrix(ctx)
